@@ -143,8 +143,12 @@ def check_case(case):
         else:
             cause = "recovery/" + dmg
 
+        ROOT_CAUSES = ("existing-target-trusted/stale", "existing-target-trusted/orphan", "recovery-surfaces-orphan/crash")
+
         def vio(sym, what):
-            out["violations"].append((f"{cause}/{sym}", f"damage={dmg} action={case['action']}: {what} (committed={len(committed)} orphans={orphans} latest={L})"))
+            # the three recorded root causes show through several symptoms (wrong version, lost rows, lost follow-up commit ...): one bucket each
+            bucket = cause if cause in ROOT_CAUSES else f"{cause}/{sym}"
+            out["violations"].append((bucket, f"[{sym}] " + f"damage={dmg} action={case['action']}: {what} (committed={len(committed)} orphans={orphans} latest={L})"))
 
         # ---- action
         act = case["action"]
